@@ -76,6 +76,10 @@ func TestVerifC11Server(t *testing.T) {
 			}
 			if st != 200 {
 				field := "other"
+				if len(body) > 100*1024 && strings.Contains(rb, "request body too large") {
+					// the report is approved item by item; it is refused for its size alone
+					field = "oversize"
+				}
 				if strings.Contains(rb, "unknown program build") {
 					field = "build"
 					for _, p := range rep.Programs {
@@ -88,6 +92,9 @@ func TestVerifC11Server(t *testing.T) {
 				continue
 			}
 			res.Hit("uploader-report-accepted")
+			if len(body) > 64*1024 {
+				res.Hit("uploader-report-accepted:over-64KiB")
+			}
 			// splice exactly one unapproved item in
 			if len(rep.Programs) == 0 {
 				continue
@@ -97,7 +104,30 @@ func TestVerifC11Server(t *testing.T) {
 				json.Unmarshal([]byte(body), &m)
 				p := m.Programs[rnd.Intn(len(m.Programs))]
 				what := ""
-				switch rnd.Intn(11) {
+				switch rnd.Intn(13) {
+				case 11, 12:
+					// a version that differs from a listed one only in a way version
+					// tooling tends to normalise away (build metadata, shorthand,
+					// spelling): the configuration lists exact strings
+					var pc *verifref.ProgramConfig
+					for _, c := range cs.Config.Programs {
+						if c.Name == p.Program {
+							pc = c
+						}
+					}
+					if pc == nil || len(pc.Versions) == 0 {
+						continue
+					}
+					v := pc.Versions[rnd.Intn(len(pc.Versions))]
+					nv := verifrt.Pick(rnd, []string{v + "+dirty", v + "+incompatible", v + "+meta.1", strings.TrimSuffix(v, ".0"), strings.TrimPrefix(v, "v"), v + " ", " " + v, strings.ToUpper(v), v + "-", v + ".0"})
+					listed := nv == v
+					for _, x := range pc.Versions {
+						listed = listed || x == nv
+					}
+					if listed {
+						continue
+					}
+					p.Version, what = nv, "version-near-miss"
 				case 0:
 					p.GOOS, what = "plan9x", "goos"
 				case 1:
@@ -196,7 +226,7 @@ func TestVerifC11Server(t *testing.T) {
 		e.close()
 	}
 	res.Sample(map[string]any{"source": "cases.jsonl from the uploader leg"})
-	res.Require("uploader-report-accepted", "spliced:goos", "spliced:counter", "spliced:stack", "spliced:stack-among-counters", "spliced:counter-among-stacks")
+	res.Require("uploader-report-accepted", "spliced:goos", "spliced:version-near-miss", "spliced:counter", "spliced:stack", "spliced:stack-among-counters", "spliced:counter-among-stacks")
 	if err := res.Write(); err != nil {
 		t.Fatal(err)
 	}
